@@ -205,7 +205,7 @@ enum Ad {
     Direct,
     Rev,
     Take(usize),
-    Skip(#[allow(dead_code)] usize),
+    Skip(usize),
 }
 #[derive(Clone, Copy)]
 enum LenAd {
@@ -282,7 +282,9 @@ fn script_ok(full: bool, sc: &Script) -> bool {
     let has_l = has(|s| matches!(s, Step::L));
     let len_end = matches!(sc.end, End::Len(_));
     match sc.ad {
-        Ad::Skip(_) => false,
+        // `it.skip(n)` exists for every iterator, but no call is ever issued
+        // through it (Iter.v, ad_step): only the empty script is offered
+        Ad::Skip(_) => sc.steps.is_empty() && !len_end,
         Ad::Direct => full || !(has_b || has_l || len_end),
         Ad::Rev => full && !len_end,
         Ad::Take(_) => !has_b && !len_end && (full || !has_l),
@@ -536,7 +538,7 @@ where
             run_steps(&mut d, &sc.steps, ctx, out, bad);
             finish_simple(d.0, sc.end);
         }
-        Ad::Skip(_) => unreachable!(),
+        Ad::Skip(n) => finish_simple(it.skip(n), sc.end),
     }
 }
 
@@ -556,7 +558,8 @@ where
             run_steps(&mut d, &sc.steps, ctx, out, bad);
             finish_simple(d.0, sc.end);
         }
-        Ad::Rev | Ad::Skip(_) => unreachable!(),
+        Ad::Skip(n) => finish_simple(it.skip(n), sc.end),
+        Ad::Rev => unreachable!(),
     }
 }
 
@@ -1217,7 +1220,16 @@ fn io_fail(what: &str, e: std::io::Error) -> ! {
 /// the parent can tell which op killed the process); afterwards, and always
 /// when `slow` is false, output is flushed in blocks of whole histories.
 pub fn exec_child(hist: &str, trace: &str, off: u64, slow: bool) {
-    std::panic::set_hook(Box::new(|_| {}));
+    if std::env::var_os("PQH_DEBUG").is_some() {
+        // say where the crate panicked (the fuse itself stays silent)
+        std::panic::set_hook(Box::new(|info| {
+            if !info.payload().is::<FusePanic>() {
+                eprintln!("pqharness: {info}");
+            }
+        }));
+    } else {
+        std::panic::set_hook(Box::new(|_| {}));
+    }
     let mut f = std::fs::File::open(hist).unwrap_or_else(|e| io_fail(hist, e));
     f.seek(SeekFrom::Start(off)).unwrap_or_else(|e| io_fail(hist, e));
     let mut rd = BufReader::with_capacity(1 << 20, f);
@@ -1272,8 +1284,6 @@ pub fn exec_child(hist: &str, trace: &str, off: u64, slow: bool) {
             let mode: u32 = toks.get(2).map_or(0, |s| num(s));
             let nregs: usize = toks.get(3).map_or(4, |s| num(s));
             let odd = id.as_bytes().last().map_or(false, |c| (c - b'0') % 2 == 1);
-            // drop the old registers before the new header is written
-            ex = None;
             ex = Some(AnyEx::new(mode, nregs, odd));
             dead = false;
             buf.push_str("H ");
@@ -1335,6 +1345,7 @@ pub fn exec_parent(hist: &str, trace: &str, timeout_s: u64) -> i32 {
     let mut off = 0u64;
     let mut slow = false;
     let mut faults = 0u64;
+    let debug = std::env::var_os("PQH_DEBUG").is_some();
     loop {
         let mut child = Command::new(&exe)
             .arg("exec-child")
@@ -1344,9 +1355,21 @@ pub fn exec_parent(hist: &str, trace: &str, timeout_s: u64) -> i32 {
             .arg(if slow { "1" } else { "0" })
             .stdin(Stdio::null())
             .stdout(Stdio::piped())
+            .stderr(Stdio::piped())
             .spawn()
             .unwrap_or_else(|e| io_fail("spawn", e));
         let so = child.stdout.take().unwrap();
+        // forward the child's stderr, minus the runtime's abort notice (an
+        // abort is reported as `fault ub` in the trace)
+        let se = child.stderr.take().unwrap();
+        let errs = std::thread::spawn(move || {
+            let rd = BufReader::new(se);
+            for l in rd.lines().map_while(Result::ok) {
+                if debug || !l.contains("non-unwinding panic") {
+                    eprintln!("{l}");
+                }
+            }
+        });
         let (tx, rx) = mpsc::channel::<u64>();
         let reader = std::thread::spawn(move || {
             let mut rd = BufReader::new(so);
@@ -1382,6 +1405,7 @@ pub fn exec_parent(hist: &str, trace: &str, timeout_s: u64) -> i32 {
         }
         let status = child.wait().unwrap_or_else(|e| io_fail("wait", e));
         let _ = reader.join();
+        let _ = errs.join();
         while let Ok(v) = rx.try_recv() {
             last = v;
         }
